@@ -60,6 +60,42 @@ def monitor(events, n):
     return None
 
 
+def busy_tie(bdrv, c, r):
+    """K-exact tie of SchedBusy.mark_busy: on ParallelInit's image of this run's forest (the static conditions forestb, chainb,
+    postb of the theorem must hold on it) the model's busy snapshot for (jcol, bcol handed out by the scheduler, first column
+    of the supernode containing bcol-1 as the code read it) must be the set of columns the worker really marked.
+    Returns (violation message or None, broken message or None, number of snapshots compared)."""
+    et = r.get("etree"); snaps = r.get("lbusy") or []
+    if et is None or not snaps:
+        return None, None, 0
+    last = {}; qs = []; want = []
+    it = iter(snaps)
+    # events are in global order; every LBUSY snapshot follows the SCHED event of the same worker for the same panel
+    bin_ = {}
+    for e in r.get("events", []):
+        if e[0] == EV_SCHED and e[2] >= 0:
+            bin_[(e[1], e[2])] = e[3]
+    for pn, jcol, bout, cols in snaps:
+        b = bin_.get((pn, jcol))
+        if b is None:
+            continue
+        qs.append("%d %d %d" % (jcol, b, bout)); want.append((pn, jcol, b, bout, cols))
+    line = "%d %d %d | %s | %s\n" % (c["n"], c["ienv"][0], c["ienv"][1], " ".join(map(str, et)), " ; ".join(qs))
+    rc, out, err = vf.sh2([bdrv], inp=line, timeout=120)
+    ol = out.strip().split("\n")
+    if rc != 0 or len(ol) != len(qs) + 1 or not ol[0].startswith("ST "):
+        return None, "busy model driver failed: %s" % (err[-200:] or out[:200]), 0
+    if ol[0] != "ST 1 1 1 1":
+        return None, "static conditions of busy_columns_marked do not hold on ParallelInit's image of a real forest: %s (etree %s, w %d, relax %d)" % (
+            ol[0], et[:30], c["ienv"][0], c["ienv"][1]), 0
+    for ln, (pn, jcol, b, bout, cols) in zip(ol[1:], want):
+        mod = [int(x) for x in ln[1:].split()]
+        if mod != sorted(cols):
+            return ("busy snapshot of worker %d for panel %d (bcol %d, supernode start %d): the worker marked %s, "
+                    "pxgstrf_mark_busy_descends as modelled marks %s" % (pn, jcol, b, bout, sorted(cols), mod)), None, 0
+    return None, None, len(want)
+
+
 def cases(ctx):
     rng = ctx.rng
     out, cid = [], 0
@@ -78,7 +114,7 @@ def cases(ctx):
                             nrhs=1, rhs=[1.0] * A["n"], nprocs=rng.choice([2, 3, 4]), colperm=0,
                             ienv=[rng.choice([1, 2]), gen.bushy_relax(n0), rng.choice([8, 200]), rng.choice([2, 200]), rng.choice([2, 100]), -50, -50, -30],
                             thresh=rng.choice([1.0, 0.1]), perturb=[rng.randint(1, 10 ** 6), rng.choice([0.3, 0.7]), rng.choice([30, 200, 1000])],
-                            trace=1, dumplu=1, timeout=90, kind="bushy"))
+                            trace=5, dumplu=1, timeout=90, kind="bushy"))
             continue
         out.append(dict(id=cid, driver="gstrf", m=A["n"], n=A["n"], colptr=A["colptr"], rowind=A["rowind"], vals=A["vals"],
                         nrhs=1, rhs=[1.0] * A["n"], nprocs=rng.choice([2, 3, 4, 8]), colperm=rng.choice([0, 1, 2, 3]),
@@ -86,7 +122,7 @@ def cases(ctx):
                               rng.choice([2, 200]), rng.choice([2, 100]), -50, -50, -30],
                         thresh=rng.choice([1.0, 1.0, 0.5, 0.1]),
                         perturb=[rng.randint(1, 10 ** 6), rng.choice([0.1, 0.3, 0.7]), rng.choice([0, 30, 200])],
-                        trace=1, dumplu=1, timeout=90, kind=kind))
+                        trace=5, dumplu=1, timeout=90, kind=kind))
     return out
 
 
@@ -145,7 +181,8 @@ def run(ctx):
     exe = drv.build(ctx, "d", "hooks")
     cs = cases(ctx)
     res = drv.run_grouped(exe, cs, par=max(1, vf.NCPU // 4), chunk=10)
-    ntr, nbusy, nseq = 0, 0, 0
+    ntr, nbusy, nseq, nsnap = 0, 0, 0, 0
+    bdrv = ctx.ocaml_model("busy")
     for c, r in zip(cs, res):
         bad = None
         if r.get("timeout") or r.get("crash") is not None or r.get("missing"):
@@ -158,6 +195,11 @@ def run(ctx):
             nbusy += busy
             nontriv = busy > 0 or sum(1 for e in ev if e[0] == EV_SCHED and e[2] >= 0) >= 2
             bad = monitor(ev, c["n"]) if r.get("hooks") else None
+            if bad is None and r.get("hooks"):
+                bad, brk, k = busy_tie(bdrv, c, r)
+                nsnap += k
+                if brk:
+                    ctx.broken.append(brk)
             if bad is None and ntr % 3 == 0:
                 nseq += 1
                 bad = compare_seq(ctx, exe, c, r)
@@ -169,12 +211,14 @@ def run(ctx):
     ctx.cov["traces_validated_against_impl"] = ntr
     ctx.cov["correspondence"]["threaded_traces"] = ntr
     ctx.cov["correspondence"]["busy_chain_reads_seen"] = nbusy
+    ctx.cov["correspondence"]["busy_snapshots_equal_to_model"] = nsnap
     ctx.cov["correspondence"]["parallel_vs_sequential_compared"] = nseq
     ctx.sample({"trace_case": {k: cs[0][k] for k in ("kind", "n", "nprocs", "colperm", "ienv", "thresh", "perturb")}})
     ctx.log("traces: %d, busy-chain reads: %d, seq comparisons: %d" % (ntr, nbusy, nseq))
-    ctx.cov["partial"] += ["column-level worker protocol (mark_busy_descends/lbusy snapshot, DFS skipping of busy supernodes, "
-                           "pruning vs concurrent DFS, no-write-while-read on subscript lists) is checked by the trace monitor "
-                           "and the parallel-vs-sequential comparison, not proved",
+    ctx.cov["partial"] += ["column level: the busy snapshot covers every column of every unfinished descendant panel (proved, "
+                           "c03_busy_columns_marked, snapshot tied K-exactly); that the symbolic step skips exactly the marked columns, "
+                           "pruning vs concurrent DFS and no-write-while-read on subscript lists are checked by the trace monitor and "
+                           "the parallel-vs-sequential comparison, not proved",
                            "par_refines_seq (exact-field equality of parallel and sequential factors) is checked numerically, not proved"]
     ctx.assumptions += ["sequentially consistent memory; one scheduler call atomic w.r.t. DONE stores"]
 
